@@ -6,7 +6,11 @@ Never imports traits at module level (the engine activates the scratch build fir
 Case line (kind A), fields separated by '|':
   A | <pyspec> | <P> | <M> | <offers> | <ftab> | <queries>
   pyspec   T=<type>;<type>;...[/R=a<c;a<c...]    type = <kind><nameid>:<bases ,-separated>
-           kinds: c plain class, a abc.ABC, h HasTraits, i Interface, b ABCHasTraits, o builtin object, n NoneType
+           kinds: c plain class, a abc.ABC, h HasTraits, i Interface, b ABCHasTraits, o builtin object, n NoneType;
+           awkward VALUES (the search only sees the type; the value matters to everything around it, e.g. the
+           error message): T S B D L = builtin tuple / str / bytes / dict / list, t = tuple subclass, k / j =
+           namedtuple with 2 / 0 fields, s = str subclass, r / q = class whose __repr__ raises / returns a non-str
+           a source token `3~2` = instance flavour 2 of type 3 (length / content, see Hier.instance)
            a<c  = types[a].register(types[c])   (ABC registration / what @provides does)
   P        issubclass matrix over universe + hidden MRO classes, rows ','-separated bit strings
   M        inspect.getmro(t)[1:] per type as indices, ';'-separated, '-' = empty
@@ -34,7 +38,8 @@ class Hier:
         self.spec = spec
         tpart, _, rpart = spec.partition("/")
         assert tpart.startswith("T=")
-        roots = {"c": object, "a": abc.ABC, "h": HasTraits, "i": Interface, "b": ABCHasTraits}
+        roots = {"c": object, "a": abc.ABC, "h": HasTraits, "i": Interface, "b": ABCHasTraits,
+                 "t": tuple, "s": str, "r": object, "q": object}
         self.types = []
         self.kinds = []
         self.names = []
@@ -51,18 +56,39 @@ class Hier:
                 self.types.append(type(None))
                 self.names.append("builtins.NoneType")
                 continue
+            if kind in BUILTIN_KINDS:
+                self.types.append(BUILTIN_KINDS[kind])
+                self.names.append("builtins." + BUILTIN_KINDS[kind].__name__)
+                self.notes.add("awkward-value-type")
+                continue
+            if kind in "kj":
+                import collections
+                nm = ts[1:].partition(":")[0]
+                cls = collections.namedtuple("T%s" % nm, "x y" if kind == "k" else "")
+                cls.__module__ = MODULE
+                self.types.append(cls)
+                self.names.append("%s.T%s" % (MODULE, nm))
+                self.notes.add("awkward-value-type")
+                continue
             nm, _, bs = ts[1:].partition(":")
             name = "T%s" % nm
             bases = [self.types[int(b)] for b in bs.split(",") if b.strip()]
-            bases = [b for b in bases if b not in (object, type(None))]
+            bases = [b for b in bases if b not in (object, type(None)) and b not in BUILTIN_KINDS.values()]
             root = roots[kind]
+            if kind in "tsrq":
+                self.notes.add("awkward-value-type")
             cls = None
             while cls is None:
                 bb = list(bases)
                 if root is not object and not any(issubclass(b, root) for b in bb):
                     bb.append(root)
                 try:
-                    cls = _types.new_class(name, tuple(bb), {}, lambda ns: ns.update(__module__=MODULE))
+                    body = {"__module__": MODULE}
+                    if kind == "r":
+                        body["__repr__"] = _raising_repr
+                    elif kind == "q":
+                        body["__repr__"] = _nonstr_repr
+                    cls = _types.new_class(name, tuple(bb), {}, lambda ns, body=body: ns.update(body))
                 except TypeError:
                     # MRO / metaclass / layout conflict: drop the last base and retry (deterministic)
                     self.notes.add("base-conflict")
@@ -148,10 +174,53 @@ class Hier:
                 setattr(mod, t.__name__, t)
         sys.modules[MODULE] = mod
 
-    def instance(self, t):
-        if self.kinds[t] == "n":
+    def instance(self, t, flavour=0):
+        """An object whose type is types[t]; for the awkward kinds the flavour picks length / content."""
+        k = self.kinds[t]
+        cls = self.types[t]
+        if k == "n":
             return None
-        return self.types[t]()
+        if k in "Tt":
+            return cls([(), (1, 2), (1, 2, 3), (1,)][flavour % 4])
+        if k == "k":
+            return cls(1, 2)
+        if k == "j":
+            return cls()
+        if k in "Ss":
+            return cls(["100%", "%s %d", "%(x)s", "plain"][flavour % 4])
+        if k == "B":
+            return [b"%s%%", b"", b"%d"][flavour % 3]
+        if k == "D":
+            return [{"a": 1}, {}, {"%s": "%d"}][flavour % 3]
+        if k == "L":
+            return [[1, 2], [], ["%s"]][flavour % 3]
+        return cls()
+
+
+BUILTIN_KINDS = {"T": tuple, "S": str, "B": bytes, "D": dict, "L": list}
+AWKWARD_KINDS = "TSBDLtkjsrq"
+BAD_REPR_KINDS = "rq"
+
+
+def _raising_repr(self):
+    raise RuntimeError("this object cannot be shown")
+
+
+def _nonstr_repr(self):
+    return 42
+
+
+def parse_src(tok):
+    """`3` / `3n` / `3~2` -> (type index, is the object None, flavour)."""
+    tok, _, fl = tok.partition("~")
+    return int(tok.rstrip("n")), tok.endswith("n"), int(fl or 0)
+
+
+def value_kind(hier, t, is_none):
+    if is_none:
+        return "None"
+    return {"T": "tuple", "t": "tuple-subclass", "k": "namedtuple", "j": "namedtuple", "S": "str", "s": "str-subclass",
+            "B": "bytes", "D": "dict", "L": "list", "r": "repr-raises", "q": "repr-not-str"}.get(hier.kinds[t], "plain")
 
 
 class Ad(object):
@@ -430,12 +499,12 @@ def random_ftab(rng, hier, offers, info, queries):
     chains = []
     for q in queries:
         w = q.split()
-        if w[0] in ("a", "d", "s", "t"):
+        if w[0] in ("a", "d", "s", "t", "ga", "gd", "gs"):
             s, t = w[-2], w[-1]
-            if s.endswith("n") and w[0] == "t":
+            if "n" in s and w[0] == "t":
                 continue
             try:
-                chains += enum_chains(hier.types[int(s.rstrip("n"))], hier.types[int(t)], info, limit=300)
+                chains += enum_chains(hier.types[parse_src(s)[0]], hier.types[int(t)], info, limit=300)
             except TooBig:
                 pass
     m = rng.choice([0, 0, 1, 1, 2, 3, 4])
@@ -469,9 +538,9 @@ def too_big(hier, offers, queries, limit=1500):
         heads.setdefault(k, hier.types[f])
     for q in queries:
         w = q.split()
-        if w[0] in ("a", "d", "s", "t"):
+        if w[0] in ("a", "d", "s", "t", "ga", "gd", "gs"):
             s = w[-2]
-            if s.endswith("n") and w[0] == "t":
+            if "n" in s and w[0] == "t":
                 continue
             count = [0]
 
@@ -486,7 +555,7 @@ def too_big(hier, offers, queries, limit=1500):
                         raise TooBig()
                     rec(hier.types[t], used | {i})
             try:
-                rec(type(None) if s.endswith("n") else hier.types[int(s)], frozenset())
+                rec(type(None) if "n" in s else hier.types[parse_src(s)[0]], frozenset())
             except TooBig:
                 return True
     return False
@@ -661,6 +730,82 @@ def random_specific_case(rng):
         queries = ["a %d %d" % (src, tgt), "t S 1 1 %d %d" % (src, tgt)] + ["m %d %d" % (src, i) for i in range(k)]
         return make_line(hier, offers, ft, queries)
     raise RuntimeError("could not generate a specificity case")
+
+
+def random_awkward_case(rng):
+    """Adaptee VALUES of awkward kinds — tuples of length 0/2/3/1, namedtuples, tuple and str subclasses, str /
+    bytes containing '%', dicts, lists, objects whose __repr__ raises or is not a str — mostly in queries that
+    FAIL without a default (the path that builds the error message), through the manager and through the
+    module-level functions; the search itself only sees their types."""
+    for _ in range(50):
+        kinds = rng.sample(list("TSBDLtkjsrq"), rng.randint(1, 4))
+        ts = []
+        for kd in kinds:
+            i = len(ts)
+            ts.append(kd if kd in BUILTIN_KINDS else "%s%d:" % (kd, i))
+        for _ in range(rng.randint(1, 3)):
+            i = len(ts)
+            ts.append("%s%d:" % (rng.choice("cca"), i))
+        n = len(ts)
+        regs = []
+        for a in range(n):
+            if ts[a][0] == "a" and rng.random() < 0.4:
+                regs.append("%d<%d" % (a, rng.randrange(len(kinds))))
+        spec = "T=" + ";".join(ts) + ("/R=" + ";".join(regs) if regs else "")
+        try:
+            hier = Hier(spec)
+        except TypeError:
+            continue
+        offers = []
+        for nid in range(rng.choice([0, 0, 1, 2, 3])):
+            f, t = rng.randrange(n), rng.randrange(n)
+            offers.append((nid, f, t, hier.key_of(f), rng.choice("nnf")))
+        ft = {}
+        for o in offers:
+            if rng.random() < 0.3:
+                ft["%d@-" % o[0]] = "n"
+        qs = []
+        for _ in range(rng.randint(3, 7)):
+            s_ = rng.randrange(len(kinds)) if rng.random() < 0.85 else rng.randrange(n)
+            t_ = rng.randrange(n)
+            tok = "%d~%d" % (s_, rng.randrange(4))
+            bad = hier.kinds[s_] in BAD_REPR_KINDS
+            r = rng.random()
+            if bad:
+                # their repr cannot be built: only the calls that never build a message (see the report)
+                qs.append("%s %s %d" % (rng.choice(["d", "gd", "s", "gs"]), tok, t_))
+            elif r < 0.45:
+                qs.append("a %s %d" % (tok, t_))
+            elif r < 0.7:
+                qs.append("ga %s %d" % (tok, t_))
+            elif r < 0.85:
+                qs.append("%s %s %d" % (rng.choice(["d", "gd", "s", "gs"]), tok, t_))
+            else:
+                qs.append("t %s %d %d %s %d" % (rng.choice("SAI"), rng.choice([1, 1, 2]), rng.choice([0, 1]), tok, t_))
+        qs = list(dict.fromkeys(qs))
+        if too_big(hier, offers, qs):
+            continue
+        return make_line(hier, offers, ft, qs)
+    raise RuntimeError("could not generate an awkward-value case")
+
+
+def awkward_sweep():
+    """Every awkward kind x every flavour x every call style, no offers (so every adaptation of a
+    non-provided protocol fails), plus one offer that makes it succeed."""
+    for kd in "TSBDLtkjs":
+        spec = "T=%s;c1:" % (kd if kd in BUILTIN_KINDS else kd + "0:")
+        hier = Hier(spec)
+        for offers in ([], [(0, 0, 1, 0, "n")]):
+            qs = []
+            for fl in range(4):
+                for call in ("a", "ga", "d", "gd", "s", "gs"):
+                    qs.append("%s 0~%d 1" % (call, fl))
+                qs.append("t S 1 1 0~%d 1" % fl)
+                qs.append("a 0~%d 0" % fl)
+            yield make_line(hier, offers, {}, qs)
+    for kd in "rq":
+        hier = Hier("T=%s0:;c1:" % kd)
+        yield make_line(hier, [], {}, ["d 0 1", "gd 0 1", "s 0 1", "gs 0 1", "a 0 0", "ga 0 0"])
 
 
 def random_late_case(rng):
